@@ -195,7 +195,7 @@ const EXPRCTX = [
   'y ||= @@', 'y ??= @@', 'o.p &&= @@', '(() => { lbl: { if (c) break lbl; return @@ } })()', '(() => { switch (a) { case @@: return 1; default: return @@ } })()',
   // class positions
   '(class { static [@@] = 1 })', '(class { static { y = @@ } })', 'new (class { constructor(p = @@) { this.p = p } })().p', '(class { static m(p = @@) { return p } }).m()', '({ get [@@]() { return 1 } })', '({ set p(v = @@) {} })', '({ async *m() { yield @@ } })',
-  'o.m?.(@@)', 'o?.[@@]', 'new X(@@)', 'new X(...(@@))', 'import(@@)'
+  'o.m?.(@@)', 'o?.[@@]', 'new X(@@)', 'new X(...(@@))'
 ]
 const EXPRCTX_ASYNC = ['await (@@)', 'await @@', '(async () => @@)()', '(async () => await (@@))()', '(async (q) => (await q) + (@@))(a)']
 const EXPRCTX_GEN = ['yield (@@)', 'yield @@', 'yield* [@@]']
